@@ -302,3 +302,216 @@ package quic
 //@ extern slices.IndexFunc
 //@   ensures [range] -1 <= result && result < len(s)
 //@   modifies nothing
+
+// ---------------- frame sorter / crypto stream (C03, C09) ----------------
+//@ func (s *frameSorter) Push
+//@   trusted bounded stand-in (see DESIGN §3 C03): the gap-list insertion is checked exhaustively against a reference model for short push/pop sequences, not proved; the gap list's internal nodes are not modelled
+//@   bounded sequences of length <= 4 over the offset lattice {0,1,127,128,129,...}
+//@   ensures [err-kind] result == nil || !istransporterr(result)
+//@   ensures [gap-list-nonempty] s.gaps.len > 0
+//@   modifies s.queue[*]
+
+//@ func (s *frameSorter) HasMoreData
+//@   props C03
+//@   ensures [iff] iff(result, len(s.queue) > 0)
+//@   modifies nothing
+
+//@ func (s *frameSorter) Pop
+//@   props C03
+//@   requires s.queue != nil && s.gaps != nil && s.gaps.len > 0 && 0 <= s.readPos && s.readPos <= 4611686018427387903
+//@   ensures [empty] implies(!old(has(s.queue, s.readPos)), result0 == old(s.readPos) && result1 == nil && result2 == nil && s.readPos == old(s.readPos) && len(s.queue) == old(len(s.queue)))
+//@   ensures [entry] implies(old(has(s.queue, s.readPos)), result0 == old(s.readPos) && samearray(result1, old(s.queue[s.readPos].Data)) && len(result1) == old(len(s.queue[s.readPos].Data)) && result2 == old(s.queue[s.readPos].DoneCb))
+//@   ensures [advance] implies(old(has(s.queue, s.readPos)), s.readPos == old(s.readPos) + len(result1) && !has(s.queue, old(s.readPos)) && len(s.queue) == old(len(s.queue)) - 1)
+//@   unclaimed safe:panic:0 the "read position higher than a gap" check depends on the gap-list representation invariant, which is covered by the bounded stand-in for push
+//@   modifies s.queue[*], s.readPos
+
+//@ func (s *baseCryptoStream) HandleCryptoFrame
+//@   props C03
+//@   requires 0 <= f.Offset && f.Offset <= 4611686018427387903 && 0 <= s.highestOffset
+//@   let end = f.Offset + len(f.Data)
+//@   ensures [buffer-exceeded-iff] iff(iserr(result, qerr.CryptoBufferExceeded), end > 16384)
+//@   ensures [after-finish-iff] implies(end <= 16384 && old(s.finished), iff(iserr(result, qerr.ProtocolViolation), end > old(s.highestOffset)) && implies(end <= old(s.highestOffset), result == nil))
+//@   ensures [rejected-untouched] implies(end > 16384 || old(s.finished), s.highestOffset == old(s.highestOffset) && called("(*frameSorter).Push") == 0)
+//@   ensures [accepted] implies(end <= 16384 && !old(s.finished), s.highestOffset == max(old(s.highestOffset), end) && called("(*frameSorter).Push") == 1)
+//@   modifies s.highestOffset, s.queue.queue[*]
+
+//@ func (s *baseCryptoStream) Finish
+//@   props C03
+//@   ensures [iff] iff(result == nil, old(len(s.queue.queue)) == 0)
+//@   ensures [flag] s.finished == (old(s.finished) || result == nil)
+//@   ensures [code] implies(result != nil, iserr(result, qerr.ProtocolViolation))
+//@   modifies s.finished
+
+//@ func (s *baseCryptoStream) PopCryptoFrame
+//@   props C03 C09
+//@   requires 0 <= s.writeOffset && s.writeOffset <= 4611686018427387903 && 0 <= maxLen && maxLen <= 16383
+//@   ensures [nothing] implies(result == nil, s.writeOffset == old(s.writeOffset) && len(s.writeBuf) == old(len(s.writeBuf)))
+//@   ensures [true-offset] implies(result != nil, result.Offset == old(s.writeOffset) && alias(result.Data, old(s.writeBuf), 0) && len(result.Data) >= 1)
+//@   ensures [advance] implies(result != nil, s.writeOffset == old(s.writeOffset) + len(result.Data) && len(s.writeBuf) == old(len(s.writeBuf)) - len(result.Data) && alias(s.writeBuf, old(s.writeBuf), len(result.Data)))
+//@   ensures [fits] implies(result != nil, 1 + quicvarint.vlen(uint64(result.Offset)) + quicvarint.vlen(uint64(len(result.Data))) + len(result.Data) <= maxLen)
+//@   modifies s.writeBuf, s.writeOffset
+
+// ---------------- receive stream (C03, C04) ----------------
+// (devirt flowcontrol.StreamFlowController -> *streamFlowController is declared in the flowcontrol contracts)
+
+//@ func (s *ReceiveStream) signalRead
+//@   props C03
+//@   modifies nothing
+
+//@ func (s *ReceiveStream) isNewlyCompleted
+//@   props C03 C15
+//@   ensures [iff] iff(result, !old(s.completed) && s.finalOffset != protocol.MaxByteCount && (s.cancelledLocally || s.errorRead))
+//@   ensures [once] s.completed == (old(s.completed) || result)
+//@   modifies s.completed
+
+//@ func (s *ReceiveStream) dequeueNextFrame
+//@   props C03
+//@   requires s.frameQueue != nil && s.frameQueue.queue != nil && s.frameQueue.gaps != nil && s.frameQueue.gaps.len > 0 && 0 <= s.frameQueue.readPos && s.frameQueue.readPos <= 4611686018427387903
+//@   let q = s.frameQueue
+//@   ensures [released-once] called("field:currentFrameDone") == ite(old(s.currentFrameDone) != nil, 1, 0)
+//@   ensures [next] implies(old(has(q.queue, q.readPos)), samearray(s.currentFrame, old(q.queue[q.readPos].Data)) && len(s.currentFrame) == old(len(q.queue[q.readPos].Data)) && s.currentFrameDone == old(q.queue[q.readPos].DoneCb))
+//@   ensures [none] implies(!old(has(q.queue, q.readPos)), s.currentFrame == nil && s.currentFrameDone == nil)
+//@   ensures [last-iff] iff(s.currentFrameIsLast, old(q.readPos) + len(s.currentFrame) >= s.finalOffset && !s.cancelledRemotely)
+//@   ensures [restart] s.readPosInFrame == 0
+//@   modifies s.currentFrame, s.currentFrameDone, s.currentFrameIsLast, s.readPosInFrame, q.queue[*], q.readPos
+
+//@ func (s *ReceiveStream) cancelReadImpl
+//@   props C03
+//@   let noop = old(s.cancelledLocally) || s.closeForShutdownErr != nil
+//@   ensures [idempotent] implies(noop, !result && s.cancelledLocally == old(s.cancelledLocally) && s.queuedStopSending == old(s.queuedStopSending) && s.cancelErr == old(s.cancelErr))
+//@   ensures [cancels] implies(!noop, s.cancelledLocally)
+//@   ensures [stop-sending-iff] iff(result, !noop && !s.errorRead && !s.cancelledRemotely)
+//@   ensures [queued] implies(result, s.queuedStopSending && s.cancelErr != nil && s.cancelErr.ErrorCode == errorCode && !s.cancelErr.Remote && s.cancelErr.StreamID == s.streamID)
+//@   ensures [kept] implies(!result, s.queuedStopSending == old(s.queuedStopSending) && s.cancelErr == old(s.cancelErr))
+//@   modifies s.cancelledLocally, s.queuedStopSending, s.cancelErr
+
+//@ func (s *ReceiveStream) handleStreamFrameImpl
+//@   props C03 C04
+//@   let fc = dyn(s.flowController, *flowcontrol.streamFlowController)
+//@   let conn = dyn(fc.connection, *flowcontrol.connectionFlowController)
+//@   let maxOff = frame.Offset + len(frame.Data)
+//@   requires s.flowController != nil && typeis(s.flowController, *flowcontrol.streamFlowController) && fc.sInv() && s.frameQueue != nil
+//@   requires 0 <= frame.Offset && frame.Offset <= 4611686018427387903 - 1099511627776 && conn.highestReceived + maxOff <= 4611686018427387903
+//@   let known = old(fc.receivedFinalOffset)
+//@   let hr = old(fc.highestReceived)
+//@   let fserr = known && (frame.Fin && maxOff != hr || maxOff > hr) || frame.Fin && maxOff < hr
+//@   let fcerr = !fserr && maxOff > hr && (maxOff > fc.receiveWindow || old(conn.highestReceived) + (maxOff - hr) > conn.receiveWindow)
+//@   ensures [final-size-iff] iff(iserr(result, qerr.FinalSizeError), fserr)
+//@   ensures [flow-control-iff] iff(iserr(result, qerr.FlowControlError), fcerr)
+//@   ensures [rejected-not-queued] implies(fserr || fcerr, called("(*frameSorter).Push") == 0 && s.finalOffset == old(s.finalOffset))
+//@   ensures [final-offset] implies(!fserr && !fcerr, s.finalOffset == ite(frame.Fin, maxOff, old(s.finalOffset)))
+//@   ensures [queued-iff] implies(!fserr && !fcerr, called("(*frameSorter).Push") == ite(s.cancelledLocally, 0, 1))
+//@   ensures [credit-relation] implies(!fcerr && old(fc.highestReceived - fc.bytesRead <= conn.highestReceived - conn.bytesRead), fc.highestReceived - fc.bytesRead <= conn.highestReceived - conn.bytesRead)
+//@   ensures [flow-control-error-kind] implies(fcerr, result != nil)
+//@   ensures [inv] fc.sInv()
+//@   modifies s.finalOffset, s.frameQueue.queue[*], fc.highestReceived, fc.receivedFinalOffset, fc.epochStartTime, fc.epochStartOffset, conn.highestReceived, conn.epochStartTime, conn.epochStartOffset
+
+//@ func (s *ReceiveStream) handleResetStreamFrameImpl
+//@   props C03 C04
+//@   let fc = dyn(s.flowController, *flowcontrol.streamFlowController)
+//@   let conn = dyn(fc.connection, *flowcontrol.connectionFlowController)
+//@   requires s.flowController != nil && typeis(s.flowController, *flowcontrol.streamFlowController) && fc.sInv()
+//@   requires 0 <= frame.FinalSize && frame.FinalSize <= 4611686018427387903 && conn.highestReceived + frame.FinalSize <= 4611686018427387903
+//@   requires fc.highestReceived - fc.bytesRead <= conn.highestReceived - conn.bytesRead
+//@   let known = old(fc.receivedFinalOffset)
+//@   let hr = old(fc.highestReceived)
+//@   let fs = frame.FinalSize
+//@   let shut = s.closeForShutdownErr != nil
+//@   let fserr = !shut && (known && fs != hr || fs < hr)
+//@   let fcerr = !shut && !fserr && fs > hr && (fs > fc.receiveWindow || old(conn.highestReceived) + (fs - hr) > conn.receiveWindow)
+//@   let ok = !shut && !fserr && !fcerr
+//@   ensures [shutdown-noop] implies(shut, result == nil && s.finalOffset == old(s.finalOffset) && s.cancelledRemotely == old(s.cancelledRemotely) && s.reliableSize == old(s.reliableSize))
+//@   ensures [final-size-iff] iff(iserr(result, qerr.FinalSizeError), fserr)
+//@   ensures [flow-control-iff] iff(iserr(result, qerr.FlowControlError), fcerr)
+//@   ensures [rejected-untouched] implies(fserr || fcerr, s.finalOffset == old(s.finalOffset) && s.cancelledRemotely == old(s.cancelledRemotely) && s.reliableSize == old(s.reliableSize) && s.cancelErr == old(s.cancelErr))
+//@   ensures [final-offset] implies(ok, result == nil && s.finalOffset == fs)
+//@   ensures [reliable-size] implies(ok, s.reliableSize == ite((!old(s.cancelledRemotely) && old(s.reliableSize) == 0) || frame.ReliableSize < old(s.reliableSize), frame.ReliableSize, old(s.reliableSize)))
+//@   ensures [abandon-iff] implies(ok, iff(called("(*streamFlowController).Abandon") == 1, s.readPos >= s.reliableSize) && called("(*streamFlowController).Abandon") <= 1)
+//@   ensures [cancel-iff] implies(ok, s.cancelledRemotely == (old(s.cancelledRemotely) || !s.cancelledLocally))
+//@   ensures [error-once] implies(ok, ite(!old(s.cancelledRemotely) && !s.cancelledLocally, s.cancelErr != nil && s.cancelErr.Remote && s.cancelErr.ErrorCode == frame.ErrorCode && s.cancelErr.StreamID == s.streamID, s.cancelErr == old(s.cancelErr)))
+//@   ensures [inv] fc.sInv()
+//@   modifies s.finalOffset, s.reliableSize, s.cancelledRemotely, s.cancelErr, fc.highestReceived, fc.receivedFinalOffset, fc.epochStartTime, fc.epochStartOffset, fc.bytesRead, conn.highestReceived, conn.epochStartTime, conn.epochStartOffset, conn.bytesRead
+
+//@ func (s *ReceiveStream) getControlFrame
+//@   props C03 C04
+//@   let fc = dyn(s.flowController, *flowcontrol.streamFlowController)
+//@   let conn = dyn(fc.connection, *flowcontrol.connectionFlowController)
+//@   requires s.flowController != nil && typeis(s.flowController, *flowcontrol.streamFlowController) && fc.sInv()
+//@   requires implies(s.queuedStopSending, s.cancelErr != nil)
+//@   ensures [none-iff] iff(!ok, !old(s.queuedStopSending) && !old(s.queuedMaxStreamData))
+//@   ensures [stop-sending-first] implies(old(s.queuedStopSending), ok && !s.queuedStopSending && s.queuedMaxStreamData == old(s.queuedMaxStreamData) && hasMore == old(s.queuedMaxStreamData) && typeis(result0.Frame, *wire.StopSendingFrame))
+//@   ensures [stop-sending-fields] implies(old(s.queuedStopSending), dyn(result0.Frame, *wire.StopSendingFrame).StreamID == s.streamID && dyn(result0.Frame, *wire.StopSendingFrame).ErrorCode == s.cancelErr.ErrorCode)
+//@   ensures [max-stream-data] implies(!old(s.queuedStopSending) && old(s.queuedMaxStreamData), ok && !hasMore && !s.queuedMaxStreamData && typeis(result0.Frame, *wire.MaxStreamDataFrame) && dyn(result0.Frame, *wire.MaxStreamDataFrame).StreamID == s.streamID)
+//@   ensures [window-value] implies(!old(s.queuedStopSending) && old(s.queuedMaxStreamData), dyn(result0.Frame, *wire.MaxStreamDataFrame).MaximumStreamData == 0 && fc.receiveWindow == old(fc.receiveWindow) || dyn(result0.Frame, *wire.MaxStreamDataFrame).MaximumStreamData == fc.receiveWindow && fc.receiveWindow >= old(fc.receiveWindow))
+//@   modifies s.queuedStopSending, s.queuedMaxStreamData, fc.receiveWindow, fc.receiveWindowSize, fc.epochStartTime, fc.epochStartOffset, conn.receiveWindowSize, conn.epochStartTime, conn.epochStartOffset
+
+//@ func (s *frameSorter) deleteConsecutive
+//@   props C03
+//@   requires s.queue != nil
+//@   modifies s.queue[*]
+//@ loop (s *frameSorter) deleteConsecutive #0
+//@   modifies s.queue[*]
+
+//@ func (s *frameSorter) Peek
+//@   props C03
+//@   requires s.queue != nil && 0 <= offset && offset <= 4611686018427387903
+//@   ensures [short-iff] implies(len(p) == 0, result == nil)
+//@   modifies p[*]
+//@ loop (s *frameSorter) Peek #0
+//@   invariant 0 <= remaining && remaining <= len(p)
+//@   modifies nothing
+//@ loop (s *frameSorter) Peek #1
+//@   invariant 0 <= copied && copied <= len(p)
+//@   modifies p[*]
+
+//@ iface (x quic.streamSender) onStreamCompleted
+//@   modifies nothing
+//@ iface (x quic.streamSender) onHasStreamControlFrame
+//@   modifies nothing
+//@ iface (x quic.streamSender) onHasConnectionData
+//@   modifies nothing
+//@ iface (x quic.streamSender) onHasStreamData
+//@   modifies nothing
+
+//@ func (s *ReceiveStream) isRemoteCancellationEffective
+//@   props C03
+//@   ensures result == (s.cancelledRemotely && s.readPos >= s.reliableSize)
+//@   modifies nothing
+
+//@ func (s *ReceiveStream) handleStreamFrame
+//@   props C03 C15
+//@   let fc = dyn(s.flowController, *flowcontrol.streamFlowController)
+//@   let conn = dyn(fc.connection, *flowcontrol.connectionFlowController)
+//@   requires s.flowController != nil && typeis(s.flowController, *flowcontrol.streamFlowController) && fc.sInv() && s.frameQueue != nil && s.sender != nil
+//@   requires 0 <= frame.Offset && frame.Offset <= 4611686018427387903 - 1099511627776 && conn.highestReceived + frame.Offset + len(frame.Data) <= 4611686018427387903
+//@   requires fc.highestReceived - fc.bytesRead <= conn.highestReceived - conn.bytesRead
+//@   ensures [completed-once] called("(quic.streamSender).onStreamCompleted") == ite(s.completed && !old(s.completed), 1, 0)
+//@   ensures [completed-monotone] implies(old(s.completed), s.completed)
+//@   ensures [completed-needs-final-size] implies(s.completed && !old(s.completed), s.finalOffset != protocol.MaxByteCount && (s.cancelledLocally || s.errorRead))
+//@   ensures [abandon-with-completion] called("(*streamFlowController).Abandon") == ite(s.completed && !old(s.completed), 1, 0)
+//@   unclaimed pre:(*streamFlowController).Abandon@4.0 on the path where UpdateHighestReceived returned FLOW_CONTROL_ERROR for a locally cancelled stream, the stream's highest offset was raised without the connection's, so Abandon's credit relation does not hold; the error is connection-fatal and the counters are not used afterwards (observation recorded in DESIGN.md)
+//@   modifies s.finalOffset, s.completed, s.frameQueue.queue[*], fc.highestReceived, fc.receivedFinalOffset, fc.epochStartTime, fc.epochStartOffset, fc.bytesRead, conn.highestReceived, conn.epochStartTime, conn.epochStartOffset, conn.bytesRead
+
+//@ func (s *ReceiveStream) handleResetStreamFrame
+//@   props C03 C15
+//@   let fc = dyn(s.flowController, *flowcontrol.streamFlowController)
+//@   let conn = dyn(fc.connection, *flowcontrol.connectionFlowController)
+//@   requires s.flowController != nil && typeis(s.flowController, *flowcontrol.streamFlowController) && fc.sInv() && s.sender != nil
+//@   requires 0 <= frame.FinalSize && frame.FinalSize <= 4611686018427387903 && conn.highestReceived + frame.FinalSize <= 4611686018427387903
+//@   requires fc.highestReceived - fc.bytesRead <= conn.highestReceived - conn.bytesRead
+//@   ensures [completed-once] called("(quic.streamSender).onStreamCompleted") == ite(s.completed && !old(s.completed), 1, 0)
+//@   ensures [completed-monotone] implies(old(s.completed), s.completed)
+//@   ensures [completed-needs-final-size] implies(s.completed && !old(s.completed), s.finalOffset != protocol.MaxByteCount && (s.cancelledLocally || s.errorRead))
+//@   modifies s.finalOffset, s.reliableSize, s.cancelledRemotely, s.cancelErr, s.completed, fc.highestReceived, fc.receivedFinalOffset, fc.epochStartTime, fc.epochStartOffset, fc.bytesRead, conn.highestReceived, conn.epochStartTime, conn.epochStartOffset, conn.bytesRead
+
+//@ func (s *ReceiveStream) CancelRead
+//@   props C03 C15
+//@   let fc = dyn(s.flowController, *flowcontrol.streamFlowController)
+//@   let conn = dyn(fc.connection, *flowcontrol.connectionFlowController)
+//@   requires s.flowController != nil && typeis(s.flowController, *flowcontrol.streamFlowController) && fc.sInv() && s.sender != nil
+//@   requires fc.highestReceived - fc.bytesRead <= conn.highestReceived - conn.bytesRead
+//@   ensures [completed-once] called("(quic.streamSender).onStreamCompleted") == ite(s.completed && !old(s.completed), 1, 0)
+//@   ensures [completed-monotone] implies(old(s.completed), s.completed)
+//@   ensures [stop-sending-once] called("(quic.streamSender).onHasStreamControlFrame") == ite(!old(s.cancelledLocally) && s.closeForShutdownErr == nil && !s.errorRead && !s.cancelledRemotely, 1, 0)
+//@   ensures [abandon-with-completion] called("(*streamFlowController).Abandon") == ite(s.completed && !old(s.completed), 1, 0)
+//@   modifies s.cancelledLocally, s.queuedStopSending, s.cancelErr, s.completed, fc.bytesRead, conn.bytesRead
